@@ -158,6 +158,13 @@ def run(ctx: Context) -> None:
         ok = (outer is not None and norm_text(outer.args[0]) == f"{arr_p}.shape" and kwarg(outer, 'order') is None
               and norm_text(kwarg(fr[0], 'count') or ast.Constant(None)) == f"{arr_p}.size" and norm_text(fr[0].args[0]) == 'values')
     ctx.check('R07.3', ok, "the per-cell results are reshaped to the input shape in that same order", bm, fr[0] if fr else bm.node)
+    rets = bm.returns()
+    ok = bool(rets) and bool(fr) and all(bflow.reaches(r.value, lambda n: n is fr[0]) for r in rets)
+    ctx.check('R07.3', ok, "every exit of blur_mask returns that per-cell result (no short cut for special sizes or shapes)", bm,
+              next((r for r in rets if not (fr and bflow.reaches(r.value, lambda n: n is fr[0]))), bm.node),
+              construct=f"blur_mask returns: {[norm_text(r.value)[:50] for r in rets]}")
+    from .common import purity_obligations
+    purity_obligations(ctx, 'R07.5', bm, [arr_p], "blur_mask")
 
     # ------------------------------------------------------------------ R07.4
     cm = ctx.func(f"{ARAKAWA}.c_mask_from_centres")
@@ -289,6 +296,7 @@ VARIANTS = [
     V('C07', 'window-too-short', _M, "slice(i, i + size * 2 + 1)", "slice(i, i + size * 2)", 'R07.3'),
     V('C07', 'pad-size-minus-one', _M, "    padded = numpy.pad(arr, size, constant_values=False)", "    padded = numpy.pad(arr, size - 1, constant_values=False) if size > 1 else numpy.pad(arr, size, constant_values=False)", 'R07.3'),
     V('C07', 'pad-true', _M, "    padded = numpy.pad(arr, size, constant_values=False)", "    padded = numpy.pad(arr, size, constant_values=True)", 'R07.3'),
+    V('C07', 'blur-shortcut-wide-window', _M, "    padded = numpy.pad(arr, size, constant_values=False)", "    if size * 2 + 1 > max(arr.shape):\n        return numpy.full_like(arr, fill_value=arr.any())\n    padded = numpy.pad(arr, size, constant_values=False)", 'R07.3'),
     V('C07', 'left-smeared-first-axis', _A, "    left_mask = masking.smear_mask(face_mask, [False, True])", "    left_mask = masking.smear_mask(face_mask, [True, False])", 'R07.4'),
     V('C07', 'smear-one-shift', _M, "        [(1, 0), (0, 1)] if pad_axis else [(0, 0)]", "        [(1, 0)] if pad_axis else [(0, 0)]", 'R07.4'),
     V('C07', 'smear-and', _M, "    return functools.reduce(operator.or_, (numpy.pad(arr, pad) for pad in paddings))", "    return functools.reduce(operator.and_, (numpy.pad(arr, pad) for pad in paddings))", 'R07.4'),
